@@ -179,7 +179,14 @@ def flush_contract(world, b):
         ok = isinstance(v, tuple) and v[0] == "r" and isinstance(v[1], tuple) and v[1][0] == "P" and isinstance(v[1][1], tuple) and v[1][1][0] == "elem"
         b.ob(ok, "flush-writes-element", "the flush does not write the element produced by the queue iterator", w.loc)
     # every cycle of the iteration writes once
-    loops = [k for k in eng.loop_invariants if k[0] == eng.entry_frame]
+    # the loops that contain a write of the flush (in Window::empty itself or in a helper it calls)
+    from .workers import Region
+    Rf = Region(world, eng, "fn:" + WINDOW + "::empty")
+    loops = []
+    for w in writes:
+        for lp in Rf.loops_containing(w.node):
+            if lp not in loops and lp not in getattr(eng, "iter_loops", {}):
+                loops.append(lp)
     wn = set(w.node for w in writes)
     for (fid, h) in loops:
         b.ob(not g.on_cycle_avoiding((fid, h), avoid_nodes=wn), "flush-skips-element", "an iteration of the flush loop can skip the write of its element")
@@ -203,8 +210,7 @@ def flush_contract(world, b):
             b.ob(not bad, "clear-after-failed-write", "the queue is cleared although a write failed (acknowledged data would be lost)", cl.loc)
         # not inside the loop
         for (fid, h) in loops:
-            body = eng.frame_bodies[fid]
-            b.ob(cl.bb not in body.loops[h] or cl.ctx != fid, "clear-inside-loop", "the queue is cleared inside the write loop", cl.loc)
+            b.ob(cl.node not in Rf.loop_nodes(fid, h), "clear-inside-loop", "the queue is cleared inside the write loop", cl.loc)
     # Try on write result: a failed write returns Err
     finals_ok = [s for s in eng.finals if ret_discr(eng, s) == 0]
     for w in writes:
